@@ -280,6 +280,7 @@ class Ctx(InterpMixin, ModelsMixin):
         self.trace = []
         self.inputs = {}          # name -> z3 const (for model extraction)
         self.ghost = {}
+        self.summary_returns = []
         self.event_log = []       # entries recorded by contracts with `log_entry` (see spec.event_log)
         self.outcome = None
         self.cur_fn = None
